@@ -157,8 +157,24 @@ def make_instance(case):
     return prelude, target
 
 
+_INTERNAL = [False]
+
+
 def apply_op(spec, db):
     """Run one operation spec against a database file (real public functions)."""
+    from pygaps.parsing import sqlite as S
+    if _INTERNAL[0]:
+        # the library's own database (here: pointed at the scratch file), addressed by omitting db_path
+        keep = S.DATABASE
+        S.DATABASE = db
+        try:
+            return _apply_op(spec, None)
+        finally:
+            S.DATABASE = keep
+    return _apply_op(spec, db)
+
+
+def _apply_op(spec, db):
     from pygaps.parsing import sqlite as S
     fn = spec["fn"]
     if fn == "adsorbate_to_db":
@@ -279,6 +295,9 @@ def _run_instance(case, ctx):
                 pass  # already there (e.g. auto-inserted by an earlier prelude upload): prior content is arbitrary anyway
         pre = dbtools.dump(pre_db)
         pre_digest = _h(pre)[:10]
+        _INTERNAL[0] = case["seed"] % 4 == 3
+        if _INTERNAL[0]:
+            ctx.count("instances", "internal-database-addressed-by-omitting-db_path")
         # ---- dry run: number the statements, obtain the full effect
         shutil.copyfile(pre_db, work)
         reg = _registry_mark()
@@ -420,6 +439,7 @@ def _run_instance(case, ctx):
             ctx.extra["sampled"] = 1
             ctx.sample({"operation": target["fn"], "instance": case["op"], "statements": [t for t in trace][:24], "faulted_executions": runs})
     finally:
+        _INTERNAL[0] = False
         sqlfault.PLAN.reset()
         _registry_reset(mark)
         for f in (pre_db, work, work + "-journal"):
